@@ -904,20 +904,28 @@ def main(out_path):
 
     globals()['LAST_SOFT_FAILURES'] = soft_failures
 
-    text = '\n'.join(o) + '\n'
-    old = None
-    if os.path.exists(out_path):
-        with open(out_path, encoding='utf-8') as f:
-            old = f.read()
-    if old != text:
-        os.makedirs(os.path.dirname(out_path), exist_ok=True)   # a fresh checkout has no coq/gen (its only file is generated)
-        tmp = out_path + '.tmp.%d' % os.getpid()
-        with open(tmp, 'w', encoding='utf-8') as f:
-            f.write(text)
-        os.replace(tmp, out_path)
-        print('translate: wrote', out_path)
-    else:
-        print('translate: unchanged')
+    # T1d: message codecs (gen/Codecs.v, beside Tables.v; it depends on model/Wire.v, which depends on Tables.v)
+    import codectrans
+    ctext, cfails = codectrans.generate()
+    soft_failures.extend(cfails)
+    globals()['LAST_SOFT_FAILURES'] = soft_failures
+
+    def write_if_changed(path, text):
+        old = None
+        if os.path.exists(path):
+            with open(path, encoding='utf-8') as f:
+                old = f.read()
+        if old != text:
+            os.makedirs(os.path.dirname(path), exist_ok=True)   # a fresh checkout has no coq/gen (its files are generated)
+            tmp = path + '.tmp.%d' % os.getpid()
+            with open(tmp, 'w', encoding='utf-8') as f:
+                f.write(text)
+            os.replace(tmp, path)
+            print('translate: wrote', path)
+        else:
+            print('translate: unchanged', os.path.basename(path))
+    write_if_changed(out_path, '\n'.join(o) + '\n')
+    write_if_changed(os.path.join(os.path.dirname(out_path), 'Codecs.v'), ctext)
 
 
 if __name__ == '__main__':
